@@ -17,6 +17,9 @@ if os.environ.get("PYTHONHASHSEED") != "0":
 import warnings
 
 warnings.simplefilter("ignore")
+import logging
+
+logging.disable(logging.WARNING)  # fairlearn logs grid-size advice through logging
 if os.environ.get("VERIF_REPO"):  # mutation experiments on a scratch worktree (never set by registered commands)
     sys.path.insert(0, os.path.realpath(os.environ["VERIF_REPO"]))
 
